@@ -104,11 +104,6 @@ def tie_charpoly(ctx):
             case = o_charpoly.focused_case(rng, N, "any", accept=small, cplx=False, max_blocks=rng.choice([2, 2, 3]),
                                            max_size=2, max_params=2, fmt=rng.choice(["sympy", "sympy", "dense", "sparse"]))
         dim = len(case["sub"])
-        if o_charpoly.d13_input(case):
-            # finding D13 (crash on SymPy input with an all-zero fully-diagonalised block): left to the oracle,
-            # which reports it as a failure / known finding; the tie cannot evaluate anything on such an input
-            dist["skipped-D13-input"] = dist.get("skipped-D13-input", 0) + 1
-            continue
         scales = [1] if case["nparam"] == 1 else [rng.choice([-2, -1, 1, 2, 3]) for _ in range(case["nparam"])]
         try:
             r = implrun.run(case)
